@@ -1,21 +1,23 @@
 PROPERTY = "G12"
 ENTRY = {
-        "text": "Unbounded safety of three small specifications by inductive invariants (additional evidence on the design level; the deciding checks of C04, C10, C09 "
-                "stay TLC + conformance). specs/ind/ClientsInd.tla, Dhcp4Ind.tla, StatsInd.tla re-state the actions of Clients.tla, Dhcp4.tla, Stats.tla with type annotations "
-                "over unbounded constants (Dhcp4Ind / StatsInd are generated from the text of the originals and checked to be current on every run). For each: an inductive "
-                "invariant IndInv; Apalache 0.58.0 discharges Init => IndInv, IndInv /\\ Next => IndInv' (arbitrary IndInv states, --length=1), IndInv => Safety and the "
-                "action invariants, plus a negative control (a one-line mutation for which a counterexample to inductiveness must be found); TLC checks the correspondence "
-                "with the original module over the original's own universes (Orig!Spec => Ind!Spec and back, equal state counts; for Dhcp4 equality of every outcome set in "
-                "every reachable state of Dhcp4.mc.cfg); thorough adds the TLAPS proofs (ClientsProof.tla, Dhcp4Proof.tla: arbitrary, also infinite, constant sets), larger "
-                "Apalache bounds and bounded checks from Init. Proved: registry -- no two clients share a name or an identifier, identifiers / names / leased MACs resolve to "
-                "their unique owner or to none, a rejected operation changes nothing; DHCPv4 -- one lease per address and per client, dynamic leases inside the pool, never "
-                "the gateway, host names unique, disk = memory, a reservation is never offered or acknowledged to another client and is only removed by the administrator; "
-                "statistics -- stored buckets agree with the ledger of counted queries pointwise, hence totals reported = queries counted inside the window, for an unbounded "
-                "number of queries (window geometry as in Stats.mc.cfg).",
+        "text": "Unbounded safety of three small specifications by inductive invariants (additional evidence on the design level; the deciding checks of C04, C10, C12 "
+                "stay TLC + conformance). specs/ind/ClientsInd.tla, Dhcp4Ind.tla, RateLimitInd.tla re-state the actions of Clients.tla, Dhcp4.tla, RateLimit.tla with type "
+                "annotations over unbounded constants (Dhcp4Ind / RateLimitInd are generated from the text of the originals and checked to be current on every run). For each: "
+                "an inductive invariant IndInv; Apalache 0.58.0 discharges Init => IndInv, IndInv /\\ Next => IndInv' (arbitrary IndInv states, --length=1), IndInv => Safety "
+                "and the action invariants, plus a negative control (a one-line mutation for which a counterexample to inductiveness must be found); TLC checks the "
+                "correspondence with the original module over the original's own universes (Orig!Spec => Ind!Spec and back, equal state counts; for Dhcp4 also equality of "
+                "every outcome set in every reachable state of Dhcp4.mc.cfg); thorough adds the TLAPS proofs ClientsProof.tla (228 obligations), Dhcp4Proof.tla (435), "
+                "RateLimitProof.tla (166) -- arbitrary, also infinite, constant sets --, larger Apalache bounds and bounded checks from Init. Proved: registry -- no two clients "
+                "share a name or an identifier, identifiers / names / leased MACs resolve to their unique owner or to none, a rejected operation changes nothing; DHCPv4 -- one "
+                "lease per address and per client, dynamic leases inside the pool, never the gateway, host names unique, disk = memory, a reservation is never offered or "
+                "acknowledged to another client and only administrative steps change the reservations; login throttling -- nobody is rejected before N failures since the last "
+                "success, the (N+1)-th failure of an instant is never evaluated, and the five step properties, for any set of peer addresses and an unbounded clock. The "
+                "statistics module (C09) is NOT covered: its candidate invariant is kept (thorough re-checks it on the reachable states) but its inductive step is beyond "
+                "Apalache (bag folds); RateLimit was taken instead.",
         "design_ref": "DESIGN.md section 5 (last paragraph); notes/G12.md",
         "note": "Trusted: Apalache + Z3 (bounded: sets of at most Gen(n) arbitrary elements), TLC, TLAPS back ends (zenon, Isabelle, Z3), and for universes TLC does not enumerate "
                 "the argument that the Ind module is the same transition relation (textual identity for Dhcp4 / Stats). Nothing here exercises /repo. Not proved: address "
-                "precedence and settings (Clients), shape of the hourly / daily series (Stats), liveness.",
+                "precedence and settings (Clients), statistics conservation (Stats, C09), liveness.",
         "technique": "inductive invariants over unbounded constants: Apalache (symbolic, length-1 from arbitrary invariant states) + TLAPS proofs; TLC refinement checks tie the typed re-statements to the modules TLC and the harnesses use",
         "level": "model_checking",
     }
